@@ -189,6 +189,7 @@ type c08Binding struct {
 	exec, watch *[]kemtypes.WatchEventType
 	v0          *[]string // legacy hook (no configVersion): the `event` list as written (add, update, delete)
 	asYAML      bool      // render the hook configuration as block YAML instead of JSON
+	kind        string    // the `kind` of the binding as the hook spells it ("" = ConfigMap)
 	keepKey     bool      // keep=true: write `keepFullObjectsInMemory: true` instead of leaving the default
 }
 
@@ -235,9 +236,54 @@ func c08GenV0Events(rng *Rng) *[]string {
 	return &l
 }
 
+// c08KindSpellings: every way the API resolves the kind of a binding to ConfigMaps (kube-client
+// compares the lower-cased `kind` with the Kind, the resource name and the short names the discovery
+// reports): the Kind itself, other letter cases, the plural resource name, the short name.
+var c08KindSpellings = []string{"configmap", "configmaps", "cm", "CONFIGMAP", "ConfigMaps", "CM", "Configmap", "configMap"}
+
+func c08GenKind(rng *Rng) string {
+	if rng.Chance(45) {
+		return "ConfigMap"
+	}
+	return PickOne(rng, c08KindSpellings)
+}
+
+func c08KindClass(k string) string {
+	switch l := strings.ToLower(k); {
+	case k == "" || k == "ConfigMap":
+		return "Kind"
+	case l == "cm":
+		return "short-name"
+	case l == "configmaps":
+		return "plural-resource-name"
+	}
+	return "other-letter-case"
+}
+
+// c08FakeCluster: a fake cluster whose discovery reports the short name of ConfigMaps the way a real
+// api-server does (the resource tables of kube-client/fake have none). The tables are package
+// variables of kube-client/fake: this cluster gets a deep copy.
+func c08FakeCluster() *fake.Cluster {
+	fc := fake.NewFakeCluster(fake.ClusterVersionV121)
+	var lists []*metav1.APIResourceList
+	for _, l := range fc.Discovery.Resources {
+		l = l.DeepCopy()
+		if l.GroupVersion == "v1" {
+			for i := range l.APIResources {
+				if l.APIResources[i].Name == "configmaps" {
+					l.APIResources[i].ShortNames = []string{"cm"}
+				}
+			}
+		}
+		lists = append(lists, l)
+	}
+	fc.Discovery.Resources = lists
+	return fc
+}
+
 // c08GenBinding: executeHookOnEvent absent/[]/subset x watchEvent absent/[]/subset.
 func c08GenBinding(rng *Rng) c08Binding {
-	b := c08Binding{asYAML: rng.Bool(), keepKey: rng.Bool()}
+	b := c08Binding{asYAML: rng.Bool(), keepKey: rng.Bool(), kind: c08GenKind(rng)}
 	switch k := rng.Intn(100); {
 	case k < 45: // the usual binding: executeHookOnEvent only
 		b.exec = c08GenKey(rng, 0)
@@ -281,9 +327,13 @@ func c08LoadHook(v0 bool, specs []c08Spec, asYAML bool, ns string) ([]*kem.Monit
 		if len(specs) > 1 {
 			name = fmt.Sprintf("b%d", i)
 		}
+		kind := sp.b.kind
+		if kind == "" {
+			kind = "ConfigMap"
+		}
 		var bind map[string]any
 		if v0 {
-			bind = map[string]any{"name": name, "kind": "ConfigMap",
+			bind = map[string]any{"name": name, "kind": kind,
 				"namespaceSelector": map[string]any{"matchNames": []any{ns}}}
 			if sp.b.v0 != nil {
 				evs := []any{}
@@ -293,7 +343,7 @@ func c08LoadHook(v0 bool, specs []c08Spec, asYAML bool, ns string) ([]*kem.Monit
 				bind["event"] = evs
 			}
 		} else {
-			bind = map[string]any{"name": name, "apiVersion": "v1", "kind": "ConfigMap",
+			bind = map[string]any{"name": name, "apiVersion": "v1", "kind": kind,
 				"namespace": map[string]any{"nameSelector": map[string]any{"matchNames": []any{ns}}}}
 			if sp.b.exec != nil {
 				bind["executeHookOnEvent"] = lst(*sp.b.exec)
@@ -352,7 +402,7 @@ func c08Setup(c *Case, b c08Binding, f *jqF, keep bool, initial []map[string]any
 // load them. The result is the first binding's environment; deliver/jqProbe on it address all of them.
 func c08SetupHook(c *Case, v0 bool, specs []c08Spec, asYAML bool, initial []map[string]any) *c08Env {
 	ns := fmt.Sprintf("c08-%d", c.Idx)
-	fc := fake.NewFakeCluster(fake.ClusterVersionV121)
+	fc := c08FakeCluster()
 	ids := NewInterner()
 	states := map[string]map[string]any{}
 	store := &c08Store{objs: map[string]*unstructured.Unstructured{}, text: map[string]string{}}
@@ -388,11 +438,16 @@ func c08SetupHook(c *Case, v0 bool, specs []c08Spec, asYAML bool, initial []map[
 			e.events = append(e.events, ev)
 			e.mu.Unlock()
 		})
-		if v0 {
-			c.Op(fmt.Sprintf("cfg v0 event=%s jq=%s ast=%s", c08NamesArg(sp.b.v0), jqText, ast), ans)
-		} else {
-			c.Op(fmt.Sprintf("cfg exec=%s watch=%s keep=%d jq=%s ast=%s", c08KeyArg(sp.b.exec), c08KeyArg(sp.b.watch), kp, jqText, ast), ans)
+		kind := sp.b.kind
+		if kind == "" {
+			kind = "ConfigMap"
 		}
+		if v0 {
+			c.Op(fmt.Sprintf("cfg v0 kind=%s event=%s jq=%s ast=%s", kind, c08NamesArg(sp.b.v0), jqText, ast), ans)
+		} else {
+			c.Op(fmt.Sprintf("cfg kind=%s exec=%s watch=%s keep=%d jq=%s ast=%s", kind, c08KeyArg(sp.b.exec), c08KeyArg(sp.b.watch), kp, jqText, ast), ans)
+		}
+		c.Note("kind:" + c08KindClass(kind))
 		got := g4TypesArg(cfg.EventTypes)
 		c.Op("types", got)
 		c.Oracle("types " + got)
@@ -508,6 +563,15 @@ func (e *c08Env) jqProbe(obj map[string]any) {
 // the binding's snapshot is read (record: getCachedObjects, what a hook run does), so reads of one
 // binding's snapshot lie between the deliveries to the others and before every re-delivery.
 func (e *c08Env) deliver(t kemtypes.WatchEventType, name string, obj map[string]any) {
+	e.deliverX(t, name, obj, false)
+}
+
+// deliverInitial: an Added of the list the shared informer made on start (isInInitialList = true).
+func (e *c08Env) deliverInitial(name string, obj map[string]any) {
+	e.deliverX(kemtypes.WatchEventAdded, name, obj, true)
+}
+
+func (e *c08Env) deliverX(t kemtypes.WatchEventType, name string, obj map[string]any, initial bool) {
 	u, same := e.store.ptr(name, obj)
 	if same {
 		e.c.Note("redeliver:same-pointer")
@@ -524,7 +588,11 @@ func (e *c08Env) deliver(t kemtypes.WatchEventType, name string, obj map[string]
 		pe.takeEvents()
 		switch t {
 		case kemtypes.WatchEventAdded:
-			pe.inf.OnAdd(u)
+			if initial {
+				pe.inf.OnAddInitial(u)
+			} else {
+				pe.inf.OnAdd(u)
+			}
 		case kemtypes.WatchEventModified:
 			pe.inf.OnUpdate(u)
 		case kemtypes.WatchEventDeleted:
@@ -786,10 +854,44 @@ func c08History(e *c08Env, rng *Rng, f *jqF, names []string, steps int) (changes
 	}
 	for _, n := range g4SortedKeys(e.states) {
 		probe(e.states[n])
-		// informer start: every listed object is delivered as Added once more
-		if rng.Chance(70) {
-			e.deliver(kemtypes.WatchEventAdded, n, e.states[n])
-			e.c.Note("redeliver:start-replay")
+	}
+	// The real start sequence. T0: the monitor listed the objects itself (loadExistedObjects, done by
+	// the setup). Between T0 and T1 the cluster goes on changing: listed objects are changed, new ones
+	// are created (nothing is delivered: no informer runs yet). T1: the shared informer starts, makes
+	// its OWN list and hands every object of it to the handler as Added with isInInitialList = true —
+	// for an unchanged object a re-delivery (silent), for the others the only notification there will
+	// ever be. (Objects deleted in the window are not generated: see notes/C08.md, fifth wave.)
+	if rng.Chance(90) {
+		atStart := map[string]map[string]any{}
+		changed := map[string]string{}
+		for _, n := range names {
+			cur, live := e.states[n]
+			switch {
+			case live && rng.Chance(35):
+				var o map[string]any
+				ok := false
+				if rng.Chance(20) {
+					o, ok = c08Retype(rng, cur, f)
+				}
+				if !ok {
+					o = c08Mutate(rng, cur, f, PickOne(rng, []string{"inside", "inside", "outside", "any"}))
+				}
+				atStart[n], changed[n] = o, "window:changed-between-list-and-start"
+			case live:
+				atStart[n] = cur
+			case rng.Chance(30):
+				atStart[n], changed[n] = c08GenObject(rng, e.ns, n), "window:created-between-list-and-start"
+			}
+		}
+		for _, n := range g4SortedKeys(atStart) {
+			probe(atStart[n])
+			e.deliverInitial(n, atStart[n])
+			if note, ok := changed[n]; ok {
+				e.c.Note(note)
+				changes++
+			} else {
+				e.c.Note("redeliver:start-replay")
+			}
 		}
 	}
 	for i := 0; i < steps; i++ {
@@ -1258,11 +1360,47 @@ func c08ClusterCase(c *Case, rng *Rng) {
 		c.Note("mode:cluster-load-error")
 		return
 	}
+	dyn := e.fc.Client.Dynamic().Resource(g4CmGVR).Namespace(ns)
+	// The window between the monitor's own list (createSharedInformer → loadExistedObjects, done by
+	// the setup) and the start of the informer: one object is changed or created in the cluster. No
+	// watch runs yet; the informer's initial list at start is the only way the handler learns of it.
+	window := ""
+	var windowState map[string]any
+	if rng.Chance(70) {
+		name := PickOne(rng, names)
+		if cur, live := e.states[name]; live {
+			var next map[string]any
+			ok := false
+			if rng.Chance(25) {
+				next, ok = c08Retype(rng, cur, f)
+			}
+			if !ok {
+				next = c08Mutate(rng, cur, f, PickOne(rng, []string{"inside", "inside", "outside"}))
+			}
+			if _, err := dyn.Update(context.TODO(), &unstructured.Unstructured{Object: g4DeepCopyJSON(next)}, metav1.UpdateOptions{}); err != nil {
+				c.Inconcl = "update before start failed: " + err.Error()
+				return
+			}
+			c.Note("window:changed-between-list-and-start")
+		} else {
+			next := c08GenObject(rng, ns, name)
+			if _, err := dyn.Create(context.TODO(), &unstructured.Unstructured{Object: g4DeepCopyJSON(next)}, metav1.CreateOptions{}); err != nil {
+				c.Inconcl = "create before start failed: " + err.Error()
+				return
+			}
+			c.Note("window:created-between-list-and-start")
+		}
+		got, err := dyn.Get(context.TODO(), name, metav1.GetOptions{})
+		if err != nil {
+			c.Inconcl = "get failed: " + err.Error()
+			return
+		}
+		window, windowState = name, g4DeepCopyJSON(got.Object)
+	}
 	ctx, cancel := context.WithCancel(context.Background())
 	defer cancel()
 	e.inf.Start(ctx)
 	time.Sleep(50 * time.Millisecond) // the fake watch starts after the list; changes in between would be lost
-	dyn := e.fc.Client.Dynamic().Resource(g4CmGVR).Namespace(ns)
 	markerLive := false
 	barrier := func() bool {
 		if markerLive {
@@ -1296,15 +1434,27 @@ func c08ClusterCase(c *Case, rng *Rng) {
 		return
 	}
 	// informer start: the listed objects were delivered as Added once more; this must have been silent
+	// (the object of the window comes first: the cache is read once, after the whole replay, and the
+	// replay of the unchanged objects leaves it as it is)
 	replay := e.takeEvents()
-	for _, n := range g4SortedKeys(e.states) {
+	eventsOf := func(n string) []kemtypes.KubeEvent {
 		var mine []kemtypes.KubeEvent
 		for _, ev := range replay {
 			if len(ev.Objects) == 1 && g4NameOf(ev.Objects[0].Metadata.ResourceId) == n {
 				mine = append(mine, ev)
 			}
 		}
-		e.record(kemtypes.WatchEventAdded, n, e.states[n], mine)
+		return mine
+	}
+	if window != "" {
+		e.jqProbe(windowState)
+		e.record(kemtypes.WatchEventAdded, window, windowState, eventsOf(window))
+	}
+	for _, n := range g4SortedKeys(e.states) {
+		if n == window {
+			continue
+		}
+		e.record(kemtypes.WatchEventAdded, n, e.states[n], eventsOf(n))
 		e.c.Note("redeliver:start-replay")
 	}
 	steps := rng.Range(3, 8)
